@@ -46,6 +46,9 @@ Proof.
   - split; simpl; rewrite (proj2 (nth_error_None (s_pipes s) (length (s_pipes s)))); auto.
 Qed.
 
+Lemma heldb_nil T h : heldb T [] h = false.
+Proof. destruct T; reflexivity. Qed.
+
 Lemma closes_ext c s s' : (forall h, c h = false) -> closes c s s' -> ext s s'.
 Proof. intros Hc [H G]. split; auto. intros h. rewrite H, Hc. reflexivity. Qed.
 
@@ -127,10 +130,10 @@ Proof.
                 | None => a :: b :: T' end).
     destruct rest as [|st2 rest'].
     + (* the last stage *)
-      assert (HF : okx (closes (cin inp) s)
-                     (form_of runf Tin (match inp with Some _ => [mkFop true false] | None => [] end)
-                              inp rs body s)).
-      { destruct inp as [j|]; unfold Tin; simpl list_upd.
+      match goal with |- context [form_of runf ?A ?B ?C ?D ?E ?F] =>
+        set (r := form_of runf A B C D E F) end.
+      assert (HF : okx (closes (cin inp) s) r).
+      { unfold r. destruct inp as [j|]; unfold Tin; simpl list_upd.
         - assert (Hh : forall h, heldb (Some (mkPort (Some (HPipeR j)) (ChPipe j)) :: b :: T')
                                        [mkFop true false] h = cin (Some j) h).
           { intros h. simpl. rewrite orb_false_r. reflexivity. }
@@ -148,8 +151,7 @@ Proof.
         - assert (H := form_ext (a :: b :: T') rs body s ltac:(simpl; lia)).
           destruct (form_of runf (a :: b :: T') [] None rs body s); simpl in *; auto;
             apply closes_none; auto. }
-      destruct (form_of runf Tin _ inp rs body s) as [s2|k s2| |]; simpl in *; auto;
-        destruct acc; simpl; auto.
+      clearbody r. destruct r as [s2|k s2| |]; simpl in *; auto; destruct acc; simpl; auto.
     + (* a stage with an output pipe *)
       destruct (new_pipe_effect s) as (Ej & HO1 & HG1 & HR & HW).
       set (j := fst (new_pipe s)) in *. set (s1' := snd (new_pipe s)) in *.
@@ -159,13 +161,18 @@ Proof.
                   | Some _ => [mkFop true false; mkFop true true]
                   | None => [fop0; mkFop true true] end).
       assert (Hh : forall h, heldb Tst Fst h = cin inp h || handle_eqb (HPipeW j) h).
-      { intros h. unfold Tst, Fst, Tin. destruct inp as [ji|]; simpl; rewrite orb_false_r; reflexivity. }
-      assert (HF : okx (closes (heldb Tst Fst) s1) (form_of runf Tst Fst inp rs body s1)).
-      { apply form_closes.
+      { intros h. unfold Tst, Fst, Tin.
+        destruct inp as [ji|]; cbn [heldb cin list_upd fo_file fop0 p_file andb orb];
+          rewrite ?heldb_nil; destruct (handle_eqb (HPipeW j) h);
+          rewrite ?orb_false_r, ?orb_true_r; reflexivity. }
+      match goal with |- context [form_of runf ?A ?B ?C ?D ?E ?F] =>
+        set (r := form_of runf A B C D E F) end.
+      assert (HF : okx (closes (heldb Tst Fst) s1) r).
+      { unfold r. apply form_closes.
         - unfold Tst, Tin. destruct inp; simpl; lia.
         - intros h Hh'. apply held_iff in Hh'. rewrite Hh in Hh'.
           apply orb_true_iff in Hh' as [Hh'|Hh'].
-          + destruct inp as [ji|]; [|discriminate]. apply handle_eqb_eq in Hh'; subst h; reflexivity.
+          + destruct inp as [ji|]; [|discriminate]. unfold cin in Hh'. apply handle_eqb_eq in Hh'; subst h; reflexivity.
           + apply handle_eqb_eq in Hh'; subst h; reflexivity.
         - intros d H. unfold Tst, Fst, Tin in *.
           destruct inp; destruct d as [|[|[|d]]]; simpl in H; try discriminate; eexists; reflexivity. }
@@ -182,7 +189,7 @@ Proof.
               [ apply handle_eqb_eq in EW; subst h; rewrite HW, orb_true_r; destruct (cin inp (HPipeW j)); reflexivity
               | rewrite orb_false_r; reflexivity ] ]
           | rewrite G3, gor_join, G2; unfold s1; rewrite gor_spawn, HG1; lia ]). }
-      destruct (form_of runf Tst Fst inp rs body s1) as [s2|k s2| |]; simpl in *; auto.
+      clearbody r. destruct r as [s2|k s2| |]; simpl in *; auto.
 Qed.
 
 Lemma capture_ext T body s : 2 <= length T -> okx (ext s) (capture_of runf T body s).
